@@ -492,14 +492,27 @@ def check_provenance(ctx):
     def is_fwd(src):
         return "[1]" in src or "[0]" in src
 
+    def start_cols(body):
+        cols = set()
+        for st in walk_stmts(body):
+            if isinstance(st, ast.Assign) and len(st.targets) == 1 and isinstance(st.targets[0], ast.Name) and role_name_is_start(pa, st.targets[0].id):
+                cols |= column_refs(pa, st.value)
+        return cols
+
     if is_rev(body_src) and not is_rev(else_src):
         rev_when = True
-        rev_body, fwd_body = branch.body, branch.orelse
     elif is_rev(else_src) and not is_rev(body_src):
         rev_when = False
-        rev_body, fwd_body = branch.orelse, branch.body
     else:
-        raise AnalysisError("R08.2", where, "cannot tell which branch anchors on the last path element")
+        # the anchors do not tell the branches apart: use the start offset (reverse: path_length - path_end)
+        cb, ce = start_cols(branch.body), start_cols(branch.orelse)
+        if cb == {6, 8} and ce != {6, 8}:
+            rev_when = True
+        elif ce == {6, 8} and cb != {6, 8}:
+            rev_when = False
+        else:
+            raise AnalysisError("R08.2", where, "cannot tell which branch is the reverse-anchored one")
+    rev_body, fwd_body = (branch.body, branch.orelse) if rev_when else (branch.orelse, branch.body)
     for env, v in rows:
         want_rev = env["rev"] > env["fwd"]
         got_rev = v == rev_when
